@@ -284,7 +284,7 @@ package tree
 //@     invariant [livebr] LIVEBR()
 //@     invariant [list_private] forall n *Node :: {n.br} allocated(n) ==> arr(n.br) != arr(edges)
 //@     invariant [edges_kept] forall k int :: {edges[k]} 0 <= k && k < len(edges) ==> REOK(edges[k])
-//@     step [moved_neighbour_now_hangs_under_the_upper_end] atHead(e.left != e.right) && child != atHead(e.left) ==> (exists k int :: 0 <= k && k < len(child.neigh) && child.neigh[k] == e.left && child.br[k].left == e.left && len(e.left.neigh) == atHead(len(e.left.neigh)) + 1 && e.left.neigh[len(e.left.neigh) - 1] == child && e.left.br[len(e.left.br) - 1] == child.br[k])
+//@     step [moved_neighbour_now_hangs_under_the_upper_end] atHead(e.left != e.right) && child != atHead(e.left) ==> 0 <= idx && idx < len(child.neigh) && child.neigh[idx] == e.left && child.br[idx].left == e.left && len(e.left.neigh) == atHead(len(e.left.neigh)) + 1 && e.left.neigh[len(e.left.neigh) - 1] == child && e.left.br[len(e.left.br) - 1] == child.br[idx]
 //@     step [upper_end_itself_is_not_moved] child == atHead(e.left) ==> len(e.left.neigh) == atHead(len(e.left.neigh))
 
 //@ func (*tree.Tree).unconnectNode
